@@ -498,10 +498,15 @@ def run(ctx):
                 acc = gen_header(rng)
                 if acc is not None:
                     acc = re.sub(r'[^\x20-\x7e\t]', ' ', acc).strip(' \t')
-            reqs.append({'accept': acc, 'ce': rng.choice([None, None] + avail), 'chunk': rng.choice([0, 0, 1, 7, 512]),
+            reqs.append({'method': 'GET' if rng.random() < 0.3 else 'POST', 'accept': acc, 'ce': rng.choice([None, None] + avail), 'chunk': rng.choice([0, 0, 1, 7, 512]),
                          'body': hx(gen_body(rng)[:400]), 'answer': hx(b'<answer n="%d">' % _k + gen_body(rng)[:300] + b'</answer>')})
         conn_cases.append({'server_enabled': rng.sample(avail, rng.randint(0, len(avail))) if rng.random() < 0.7 else ['gzip'],
-                           'server_chunk': rng.choice([0, 0, 5, 512]), 'requests': reqs})
+                           'server_chunk': rng.choice([0, 0, 1, 5, 512, 4096]), 'requests': reqs})
+    config_cases = []
+    for _ in range(ctx.n(14, 80)):
+        sets = lambda k: [rng.sample(avail, rng.randint(0, len(avail))) for _ in range(k)]  # noqa: E731
+        config_cases.append({'side': rng.choice(['provider', 'provider', 'consumer']), 'pre': sets(rng.randint(0, 2)),
+                             'post': sets(rng.randint(1, 3)), 'chunk': rng.choice([0, 0, 7, 512])})
     codec_cases = []
     for _ in range(ctx.n(60, 600)):
         alg = rng.choice(avail)
@@ -521,7 +526,7 @@ def run(ctx):
         'server_choice': [{'header': lh(h), 'enabled': [lh(e) for e in en]} for h, en in sc_cases],
         'client_choice': [{'request_encodings': [lh(x) for x in c['request_encodings']], 'supported': [lh(x) for x in c['supported']],
                            'chunk': c['chunk']} for c in cc_cases],
-        'e2e': e2e_cases, 'raw': raw_cases, 'codec': codec_cases, 'conn': conn_cases,
+        'e2e': e2e_cases, 'raw': raw_cases, 'codec': codec_cases, 'conn': conn_cases, 'config': config_cases,
     }
     impl = ctx.impl('c17_impl', payload, timeout=1500)
     if impl.get('_crash'):
@@ -666,9 +671,13 @@ def run(ctx):
         bad = None
         if tr['escaped']:
             bad = ('exception', f'exception on a connection with {len(reqs)} valid requests: {tr["escaped"]}', None)
-        elif len(resps) != len(reqs) or tr['unparsed_output']:
+        elif (len(resps) != len(reqs) or tr['unparsed_output']) and not any(a.get('framing_error') for a in resps):
             bad = ('response-count', f'{len(reqs)} requests on one connection, {len(resps)} responses (+{tr["unparsed_output"]} unparsed bytes)', None)
-        elif tr['server_saw'] != [r['body'] for r in reqs]:
+        elif any(a.get('framing_error') for a in resps):
+            k_bad = next(k for k, a in enumerate(resps) if a.get('framing_error'))
+            bad = ('response-framing', f'response {k_bad + 1} of {len(reqs)} ({reqs[min(k_bad, len(reqs) - 1)].get("method", "POST")}, server chunk size '
+                                       f'{c["server_chunk"]}) is not valid HTTP/1.1 framing: {resps[k_bad]["framing_error"]}', k_bad)
+        elif tr['server_saw'] != [None if r.get('method') == 'GET' else r['body'] for r in reqs]:
             bad = ('request-lossy', 'the component did not receive exactly the request bodies that were sent, in order', None)
         prev = None
         for k, (r, a) in enumerate(zip(reqs, resps)):
@@ -754,6 +763,32 @@ def run(ctx):
                      {'stream': 'raw', 'case': {k: v for k, v in c.items() if k != 'raw'}, 'impl_trace': tr,
                       'oracle': {'verdict': 'fail', 'clause': bad[0]}})
     ctx.count('raw', len(raw_cases), [c['raw'] for c in raw_cases], coding_chosen=nsome, oracle_only=True)
+    # configuration calls before and after start: only codings enabled AT THAT MOMENT may be used or advertised
+    n_obs = n_used = 0
+    for c, tr in zip(config_cases, impl['config']):
+        if tr.get('spin') or 'observations' not in tr:
+            ctx.broken('correspondence', 'config', {'case': c, 'impl': tr})
+            continue
+        bad = None
+        for o in tr['observations']:
+            n_obs += 1
+            for who in ('server', 'old_client', 'new_client'):
+                p = o.get(who)
+                if p is None:
+                    continue
+                n_used += p.get('ce') is not None
+                if p.get('exc') or p.get('escaped') or p.get('framing_error'):
+                    bad = bad or ('exception', f'{c["side"]} {who} after "{o["phase"]}" (enabled {o["enabled"]}): {p}')
+                elif p.get('ce') is not None and p['ce'] not in o['enabled']:
+                    bad = bad or ('not-enabled', f'{c["side"]}: {who.replace("_", " ")} used coding {p["ce"]!r} after "{o["phase"]}" although only '
+                                                 f'{o["enabled"]} are enabled now (calls before start: {c["pre"]}, after start: {c["post"]})')
+                elif p.get('accept') and not set(x.strip() for x in p['accept'].split(',')) <= set(o['enabled']):
+                    bad = bad or ('advertises-disabled', f'{c["side"]}: {who.replace("_", " ")} advertises Accept-Encoding {p["accept"]!r} after '
+                                                         f'"{o["phase"]}" although only {o["enabled"]} are enabled now')
+        if bad:
+            ctx.fail(f'config: {bad[1]}', {'stream': 'config', 'clause': bad[0], 'side': c['side']},
+                     {'stream': 'config', 'case': c, 'impl_trace': tr, 'oracle': {'verdict': 'fail', 'clause': bad[0]}})
+    ctx.count('config', n_obs, [json_key(c) for c in config_cases], scenarios=len(config_cases), codings_used=n_used, oracle_only=True)
     hist = {}
     for c, tr in zip(codec_cases, impl['codec']):
         if tr.get('exc') or not tr.get('roundtrip'):
@@ -780,7 +815,10 @@ def run(ctx):
              'independently (strict chunk parser, http.client as second reader, RFC 7231 reading of Accept-Encoding). '
              'conn: 2-5 requests with their own Accept-Encoding / Content-Encoding / framing on ONE connection (one handler '
              'instance); every response is judged against its own request and its coding compared with the model. '
-             'e2e/raw/codec are oracle-only. distinct = distinct inputs.',
+             'config: set_used_compression on provider / consumer before and after start, several times; after each call the running '
+             'http server, an existing and a new SOAP client are probed (only codings enabled at that moment). conn responses are split '
+             'by a strict RFC 7230 3.3 reader (exactly one of Content-Length / chunked, length = bytes on the wire), GET and POST alike. '
+             'e2e/raw/codec/config are oracle-only. distinct = distinct inputs.',
         assumptions=['decompress c (compress c b) = b for the registered codings (premise of the two round-trip theorems; '
                      'checked by the codec stream on every run)',
                      'http.client decodes strictly well-formed chunked bodies (premise of C17_response_roundtrip; checked by '
@@ -844,7 +882,7 @@ def replay(ctx, rep):
         out['impl'] = ctx.impl('c17_impl', {'client_choice': [{'request_encodings': [lh(x) for x in case['request_encodings']],
                                                                 'supported': [lh(x) for x in case['supported']], 'chunk': case.get('chunk', 0)}]})['client_choice'][0]
         out['model'] = ctx.coq_eval(HEADER, f'run_client_choice ({BL([lat(x) for x in case["request_encodings"]])}, {BL([lat(x) for x in case["supported"]])})')
-    elif stream in ('e2e', 'raw', 'codec', 'conn'):
+    elif stream in ('e2e', 'raw', 'codec', 'conn', 'config'):
         if stream == 'raw' and 'raw' not in case:
             hdr = case.get('header')
             body = bytes.fromhex(case['body'])
